@@ -81,7 +81,8 @@ class IOWorld(Machine):
                        "float_image", "uint8_image_roundtrip", "import_export_reimport", "nan_landmark", "manager_ge2_groups",
                        "unicode_label", "spelling_0", "spelling_1", "spelling_2", "spelling_3", "spelling_4", "spelling_5",
                        "clean_path_read_back_later", "path_reduce_restored", "pts_roundtrip", "empty_edge_set",
-                       "pts_large_coordinates", "masked_image_export", "explicit_extension_kwarg", "empty_preexisting_file")
+                       "pts_large_coordinates", "masked_image_export", "explicit_extension_kwarg", "empty_preexisting_file", "exact_zero_coordinates",
+                       "upper_case_extension")
 
     @classmethod
     def swarm(cls, rng, tier):
@@ -206,6 +207,15 @@ class IOWorld(Machine):
         return "sub/../" + rel
 
     def relname(self, op, ext):
+        # extensions are matched case-insensitively by menpo: every exporter also gets mixed-case spellings
+        v = (op["seed"] >> 7) % 6
+        if v == 0:
+            ext = ext.upper()
+            self.ctx.probe("upper_case_extension")
+        elif v == 1 and ext.count(".") == 2:
+            a, b = ext.rsplit(".", 1)
+            ext = a + "." + b.upper()          # .pkl.GZ
+            self.ctx.probe("upper_case_extension")
         stem = STEMS[op["stem"] % 4]
         if "." in stem:
             self.ctx.probe("multi_dot_name")
@@ -216,10 +226,16 @@ class IOWorld(Machine):
         g = rs(seed)
         k = LM_KINDS[kind % len(LM_KINDS)]
         n = int(g.randint(1, 9))
-        if k == "pc2":
-            return PointCloud(g.uniform(-50, 200, size=(n, 2)))
-        if k == "pc3":
-            return PointCloud(g.uniform(-50, 200, size=(n, 3)))
+        if k in ("pc2", "pc3"):
+            p = g.uniform(-50, 200, size=(n, 2 if k == "pc2" else 3))
+            if seed % 3 == 0:
+                # points on an axis / at the origin / on a pixel grid: exact zeros and whole numbers
+                p = np.round(p / 40.0) * 40.0
+                p[0, int(g.randint(p.shape[1]))] = 0.0
+                if seed % 2:
+                    p[-1] = 0.0
+                self.ctx.probe("exact_zero_coordinates")
+            return PointCloud(p)
         if k == "pc_nan":
             p = g.uniform(-50, 200, size=(n + 1, 2))
             p[int(g.randint(n + 1)), int(g.randint(2))] = np.nan
@@ -539,7 +555,7 @@ class IOWorld(Machine):
     def _check_lm(self, rel, snap, when, op=None):
         ctx = self.ctx
         res, exc, fired = self.guarded(op or {}, lambda: mio.import_landmark_file(self.spelled(rel, (op or {}).get("spell", 2))))
-        tag = "pts" if rel.endswith(".pts") else "ljson"
+        tag = "pts" if rel.lower().endswith(".pts") else "ljson"
         if fired:
             if exc is None:
                 ok = self._lm_equal(res, snap, tag)
@@ -586,7 +602,7 @@ class IOWorld(Machine):
     def _check_pickle(self, rel, snap, when, op=None):
         ctx = self.ctx
         res, exc, fired = self.guarded(op or {}, lambda: mio.import_pickle(self.spelled(rel, (op or {}).get("spell", 2))))
-        tag = "pickle_gz" if rel.endswith(".gz") else "pickle"
+        tag = "pickle_gz" if rel.lower().endswith(".gz") else "pickle"
         if fired:
             if exc is None:
                 d = walker.diff(res, snap, skip=("path",))
